@@ -46,7 +46,7 @@ ASSUMPTIONS = [
 ]
 BUDGET = {
     "quick": dict(cases=640, shards=4, timeout=600),
-    "thorough": dict(cases=5000, shards=16, timeout=3000),
+    "thorough": dict(cases=3000, shards=16, timeout=3000),
 }
 CLASSES = [
     "all_on", "zero_combo", "prop0", "prop1", "big_warp", "tiny", "long_T", "order23",
@@ -75,18 +75,24 @@ FLOORS = {
     },
     "thorough": {
         "events": {
-            "draw_parameters(module)": 20000, "draw_parameters(functional)": 20000,
-            "apply_parameters(module)": 20000, "apply_parameters(functional)": 20000,
-            "SpecAugment.__call__": 20000, "spec_augment": 20000, "eval-mode": 60000,
-            "hook:warp_1d_grid": 60000, "hook:grid_sample": 50000, "hook:draw-inside-call": 60000,
-            "assert:warp-monotone": 60000, "assert:warp-endpoint": 60000,
-            "assert:unmasked-bit-identical": 20000,
+            "draw_parameters(module)": 15000, "draw_parameters(functional)": 15000,
+            "apply_parameters(module)": 15000, "apply_parameters(functional)": 15000,
+            "SpecAugment.__call__": 15000, "spec_augment": 15000, "eval-mode": 60000,
+            "hook:warp_1d_grid": 100000, "hook:grid_sample": 50000, "hook:draw-inside-call": 45000,
+            "hook:torch.rand": 200000, "warp_1d_grid(functional)": 20000, "Warp1DGrid(module)": 20000,
+            "assert:warp-window": 150000, "assert:time-mask-width": 100000, "assert:time-mask-count": 100000,
+            "assert:time-mask-inside": 100000, "assert:freq-mask-width": 100000, "assert:freq-mask-inside": 100000,
+            "assert:masked-zero": 60000, "assert:unmasked-bit-identical": 7000, "assert:warp-finite": 50000,
+            "assert:warp-range": 50000, "assert:warp-monotone": 200000, "assert:warp-endpoint": 200000,
+            "assert:shape": 90000, "assert:eval-identity": 90000,
+            "hook:apply(repo test)": 8, "hook:draw(repo test)": 5, "SpecAugment.__call__(repo test)": 2,
         },
-        "classes": dict({c: 3000 for c in CLASSES}, exhaustive_small=21870,
-                        **{"rng:" + k: 5000 for k in SCRIPT_KINDS}),
-        "stats": {"rows:endpoint-held": 50000, "rows:dest-clamped": 3000},
-        "sets": {"config": 30000},
-        "distinct": 40000,
+        "classes": dict({c: 2000 for c in CLASSES}, exhaustive_small=21870, repo_test_apply=8,
+                        **{"rng:" + k: 3500 for k in SCRIPT_KINDS}),
+        "stats": {"rows:endpoint-held": 150000, "rows:dest-clamped": 100000, "rows:max-width-drawn": 10000,
+                  "rows:max-count-drawn": 5000, "rows:centre-at-window-edge": 20000, "rows:shift-at-limit": 20000},
+        "sets": {"config": 25000, "zero-limit-combination": 150},
+        "distinct": 25000,
     },
 }
 EXHAUSTIVE = {"quick": False, "thorough": False}
